@@ -46,7 +46,7 @@ def world_spec(args, program):
                 root_copy=bool(args.get('root_copy', False)), npseed=int(args.get('npseed', 0)),
                 plan=args.get('plan'), profile=bool(args.get('profile')), profile_calls=bool(args.get('profile_calls')),
                 tick_modules=args.get('tick_modules') or [], canary=args.get('canary'), repo=args.get('repo'),
-                trace=bool(args.get('trace')), script=args.get('script'), rank_hashseeds=args.get('rank_hashseeds'))
+                trace=bool(args.get('trace')), script=args.get('script'), rank_hashseeds=args.get('rank_hashseeds'), op_plans=args.get('op_plans'))
     if args.get('max_steps'):
         spec['max_steps'] = int(args['max_steps'])
     return spec
@@ -545,8 +545,8 @@ def history_world(args, scratch):
     import hashlib
     dg = hashlib.sha256()
     for si, seg in enumerate(args['segments']):
-        a = dict(args, P=seg['P'], seed=int(args.get('seed', 0)) + si, script=None, plan=seg.get('plan'),
-                 tick_modules=['esr.generation.simplifier'] if seg.get('plan') else [])
+        a = dict(args, P=seg['P'], seed=int(args.get('seed', 0)) + si, script=None, plan=seg.get('plan'), op_plans=seg.get('op_plans'),
+                 tick_modules=['esr.generation.simplifier'] if (seg.get('plan') or seg.get('op_plans')) else [])
         res = run_world(world_spec(a, seg['program']), H)
         last = res
         out['real_expired'] = out.get('real_expired', 0) + sum(((rk.get('clock') or {}).get('real_expired', 0)) for rk in res['ranks'])
@@ -581,7 +581,8 @@ def history_world(args, scratch):
             os.makedirs(F)
             make_farm(F, args.get('canary'), args.get('repo'))
             like = dict(obs['like'])
-            shutil.copytree(H + '/snap/lib/' + obs['runname'], libdir(F, obs['runname']))
+            # the fresh world gets the library as generation wrote it - not what earlier fitting runs left in that directory
+            shutil.copytree(H + '/snap/lib/' + obs['runname'], libdir(F, obs['runname']), ignore=shutil.ignore_patterns('previous_eqns_*'))
             if like['cls'] in ('Gauss', 'Poisson'):
                 os.makedirs(F + '/' + like['data_dir'])
                 shutil.copy(H + '/' + like['data_dir'] + '/' + like['data_file'], F + '/' + like['data_dir'] + '/' + like['data_file'])
